@@ -31,7 +31,8 @@ RULE = ("The harness owns every clock (ctx.set on the clock signals; coincident 
 ASSUMPTIONS = [
     "Inputs and resets change only between clock events, never in the same instant as an edge.",
     "Output domains of the asynchronous synchronisers are rising-edge (the library requires it).",
-    "FFSynchronizer output domain resets are synchronous.",
+    "FFSynchronizer output domains have a synchronous reset, an asynchronous one (resettable flops then load their "
+    "initial value as soon as it rises, reset-less ones are untouched) or none.",
     "Where the FFSynchronizer output is given a different shape from the input it is one that holds every value of "
     "the input, and the delayed value is compared numerically (the documentation only describes equal widths).",
     "Elaborating the same synchroniser object a second time (conversion followed by simulation) yields the same hardware.",
@@ -101,7 +102,7 @@ def ff_cases(draw, nev):
            "i_init": draw_val(draw, w, s) if draw(BOOL) else 0,
            "reset_less": draw(BOOL), "edge": "neg" if draw(INT(0, 3)) == 0 else "pos",
            "domain_reset_less": draw(INT(0, 3)) == 0, "o_domain": PICK(draw, ["sync", "out"]),
-           "elaborations": 2 if draw(INT(0, 4)) == 0 else 1}
+           "elaborations": 2 if draw(INT(0, 4)) == 0 else 1, "async_domain": draw(INT(0, 2)) == 0}
     # an output that can hold every value of the input (wider, or signed and wider for an unsigned input)
     cfg["o_shape"] = [w, s]
     if draw(INT(0, 3)) == 0:
@@ -121,7 +122,8 @@ def ff_body(ctx, case):
         warnings.simplefilter("ignore")
         m = Module()
         on = case["o_domain"]
-        ocd = ClockDomain(on, clk_edge=case["edge"], reset_less=case["domain_reset_less"])
+        ocd = ClockDomain(on, clk_edge=case["edge"], reset_less=case["domain_reset_less"],
+                          async_reset=bool(case.get("async_domain")) and not case["domain_reset_less"])
         xcd = ClockDomain("other")
         m.domains += [ocd, xcd]
         i = Signal(Shape(w, s), init=case["i_init"], name="i")
@@ -141,7 +143,8 @@ def ff_body(ctx, case):
     cds = {"o": ocd, "x": xcd}
     active = 1 if case["edge"] == "pos" else 0
     fail = []
-    st_ = dict(coincident=False, o_changed=False, in_burst=False, o_burst=False, reset_edge=False, unrelated=False)
+    st_ = dict(coincident=False, o_changed=False, in_burst=False, o_burst=False, reset_edge=False, unrelated=False,
+               async_reset_rise=False)
 
     async def tb(c):
         cur_in = case["i_init"]
@@ -160,8 +163,13 @@ def ff_body(ctx, case):
                 if since_o >= 2: st_["in_burst"] = True
             elif ev[0] == "rst":
                 if ocd.rst is not None:
-                    rst = ev[1]
+                    old_rst, rst = rst, ev[1]
                     c.set(ocd.rst, rst)
+                    if ocd.async_reset and rst and not old_rst:
+                        st_["async_reset_rise"] = True
+                        if not case["reset_less"]:
+                            chain[:] = [init] * stages      # resettable flops load their initial value at once
+                        # (reset-less flops, the default, are not touched - and nothing is clocked by the reset)
             else:
                 lv = ev[1]
                 if len(lv) > 1: st_["coincident"] = True
@@ -426,4 +434,4 @@ REQUIRED = ["ff:coincident", "ff:o_changed", "ff:in_burst", "ff:o_burst", "ff:re
             "pulse:coincident", "pulse:i_burst", "pulse:o_burst", "pulse:back_to_back", "pulse:same-domain",
             "pulse:several-pulses", "pulse:stages4", "ff:output-wider-than-input", "ff:negative-value-into-wider-output",
             "ff:elaborated-before", "async:elaborated-before-edge-neg", "async:elaborated-before-edge-pos",
-            "async:second-synchroniser-before", "async:second-synchroniser-after", "pulse:two-domains-renamed-onto-one"]
+            "ff:async_reset_rise", "async:second-synchroniser-before", "async:second-synchroniser-after", "pulse:two-domains-renamed-onto-one"]
